@@ -164,7 +164,7 @@ func stressRun(c *Ctx, seed uint64, cfg bedConfig, variant int) {
 		}
 		tb.mu.Unlock()
 		if len(sc.fails) == 0 {
-			sc.closeSyncer("close after load")
+			sc.closeSyncer("close after load", []int{closePlain, closeTwice, closeListenerFirst}[(variant/2)%3])
 		}
 	}
 	c.Res.Eval(fmt.Sprintf("stress|%d|%+v|%d", seed, cfg, variant), entered > 0)
